@@ -230,3 +230,45 @@ _b("C20", "proved (unbounded): for EVERY string, parse_unyt_expr lets only UnitP
           "vocabulary oracle and canaries against code execution; print/parse round trip over all 4191 names and random unit "
           "arithmetic (sympy's parser and printer are outside the verifier's reach)")
 NOT_APPLICABLE = {}
+
+# ---- additions of the last round (appended to the texts above) -------------------------------------------
+def _add(pid, text):
+    CHECKS[pid]["text"] = CHECKS[pid]["text"].rstrip() + " " + text
+
+
+_add("C03", "Also proved from their real bodies: in_base / in_cgs / in_mks (copying) and convert_to_base (in place) for an "
+            "arbitrary unit system: whatever unit get_base_equivalent names for the caller's unit system, the result is the same "
+            "physical quantity in it, zero point included (non-electromagnetic units; the CGS<->SI pairs are bounded).")
+_add("C10", "Proved (unbounded) in addition: in_base (array and quantity) and convert_to_base preserve the SI magnitude, zero "
+            "points included, label the result with get_base_equivalent(<the caller's unit system>) of the input's unit, bound "
+            "to the input's registry, and leave the input untouched / convert in the caller's memory.")
+_add("C17", "in_base / convert_to_base obey the same dtype rule (proved).")
+_add("C18", "Also proved: in_base leaves its input untouched and returns fresh memory; a refused convert_to_base leaves "
+            "numbers and unit as they were; the reductions add/maximum/minimum/multiply.reduce and power leave their operand "
+            "untouched.")
+_add("C04", "Also proved: the reductions add.reduce / maximum.reduce / minimum.reduce / multiply.reduce of a quantity (default "
+            "axis, axis=None, axis=1, axis=-1; the number of elements combined is symbolic): SI(result) is the reduction of "
+            "the SI magnitudes, the product of n elements has n times the dimension; np.power / ** with a bare real "
+            "exponent: SI(result) == SI(x)**p, dimension p times the operand's.")
+_add("C06", "Also proved: <ufunc>.reduce on a quantity runs NumPy's reduction of that ufunc on the bare data over the axis the "
+            "caller asked for; the handlers with two array parameters are additionally proved with the SAME object passed for "
+            "both (an identity shortcut is only visible there).")
+_add("C16", "Also proved: a python list of quantities ([Q,Q], [Q,Q,Q]; constructor / binary-ufunc operand route "
+            "_coerce_iterable_units) is coerced to the first member's unit with every member's value converted, zero point "
+            "included, into fresh memory; result class of reductions and powers.")
+_add("C01", "Also proved: a python list of quantities of different dimensions is refused (IterableUnitCoercionError) with its "
+            "members untouched, and a list holding a quantity is never coerced to a bare array.")
+_add("C08", "Also proved: np.power / ** of an offset-scale quantity refuses for every exponent but 1; a list mixing two offset "
+            "scales is converted member by member, zero points included.")
+_add("C07", "Module-level memo dicts are modelled (a hit returns what an earlier call stored for an equal key), so a unit memo "
+            "keyed without the registry fails the handler's unit postcondition.")
+_add("C11", "Proved (unbounded) in addition: unyt_array.__setstate__ binds the restored unit to a registry that owns its table "
+            "and holds exactly the pickled rows (nothing overwritten by defaults, nothing added but generated prefixed rows); "
+            "UnitRegistry.__deepcopy__: own table, same rows, empty memo.")
+_add("C12", "Proved in addition: modify(symbol, <quantity of the same registry>) -- in_base replaced by its (trusted) effect on "
+            "the registry: arbitrary strings memoised, generated rows added -- still ends with an empty memo and no generated "
+            "row of the edited family (found and repaired a stale-memo defect); _invalidate_caches is proved for an arbitrary "
+            "memo state (empty or not).")
+_add("C19", "Proved in addition: the numpy.isclose / numpy.allclose handlers reach NumPy only with operands in equal units or "
+            "after converting the second operand (merge guard), array_equal / array_equiv answer without NumPy only for "
+            "operands whose units differ, also when the same object is passed twice.")
